@@ -359,10 +359,16 @@ def call_numpy(it, name, mod, fn, args, kwargs, node, fr):
             dims = shape.items
         elif shape is not None:
             dims = [shape]
+        # an array allocated with a type narrower than float64 converts everything stored into it
+        narrow = None
+        dname = (dt.name.split(".")[-1] if isinstance(dt, Ref) else str(pyval(dt)) if dt is not None and is_pyconst(dt) else None)
+        if dname in ("single", "float32", "half", "float16", "int8", "int16", "int32", "int64", "uint8", "uint16", "uint32", "uint64", "int", "intc", "short"):
+            narrow = {"single": "float32", "half": "float16"}.get(dname, dname)
         if dims is not None and len(dims) == 2 and is_pyconst(dims[1]) and isinstance(pyval(dims[1]), int) and pyval(dims[1]) <= 64:
             sp = getattr(getattr(dims[0], "shape_of", None), "space", None)
             a = Arr([fv] * pyval(dims[1]), 2, sp)
             a.alloc = fn
+            a.alloc_dtype = narrow
             a.nrows = dims[0]
             if is_pyconst(dims[0]) and pyval(dims[0]) == 1:
                 a.single_row = True
